@@ -25,6 +25,9 @@ type c06Case struct {
 	Bufs      []int  `json:"bufs"` // receiver read buffer sizes, cycled
 	Close     int    `json:"close"` // 0 none, 1 Close after the last write, 2 CloseWrite
 	Resumed   bool   `json:"resumed,omitempty"` // the measured connection resumes a session of an earlier one
+	// EOFData (with Close == 1): the receiver starts reading only when the sender has written and closed, and
+	// the transport reports io.EOF together with the last bytes it hands over
+	EOFData bool `json:"eofdata,omitempty"`
 }
 
 // refKeysOfPair derives the record keys of a completed conversation from the tapped hellos and
@@ -82,7 +85,9 @@ func c06Run(c c06Case) (sig, msg string) {
 	var got []byte
 	var recvErr, sendErr error
 	sawEOF := false
+	sendDone := make(chan struct{})
 	send := func(cn *Conn) error {
+		defer close(sendDone)
 		off := 0
 		for i, n := range c.Writes {
 			m, err := cn.Write(all[off : off+n])
@@ -105,6 +110,9 @@ func c06Run(c c06Case) (sig, msg string) {
 		return sendErr
 	}
 	recv := func(cn *Conn) error {
+		if c.EOFData && c.Close == 1 {
+			<-sendDone
+		}
 		i := 0
 		for {
 			if c.Close == 0 && len(got) >= len(all) {
@@ -138,6 +146,9 @@ func c06Run(c c06Case) (sig, msg string) {
 	}
 	opt := vfPairOpt{}
 	recvEnd := 1 - c.Dir
+	if c.EOFData && c.Close == 1 {
+		opt.Prepare = func(sim *vfStream, _, _ *Conn) { sim.ends[recvEnd].eofWithData = true }
+	}
 	k := 0
 	switch c.Seg {
 	case 1:
@@ -210,13 +221,13 @@ func c06Run(c c06Case) (sig, msg string) {
 }
 
 func TestVF_C06(t *testing.T) {
-	rec := vfRec("C06", "C06-stream", "suite x full / resumed handshake x dynamic sizing on/off x direction x write-size lists (0,1,2,small,16383..16385,40000,70000; ramps of many small writes followed by a long one; runs of 1..60 empty writes between data) x receiver transport segmentation (whole, 1 byte, cycling 1..50, 1208) x read buffer sizes (1,7,100,4096,20000 cycled) x close mode (none, Close, CloseWrite); oracle: writes report full length, concat(reads)=concat(writes), EOF after everything when closed, record sizes from the wire via the reference opener; non-trivial = more than one record, or segmentation != whole, or a read buffer smaller than a record")
+	rec := vfRec("C06", "C06-stream", "suite x full / resumed handshake x dynamic sizing on/off x direction x write-size lists (0,1,2,small,16383..16385,40000,70000; ramps of many small writes followed by a long one; runs of 1..60 empty writes between data) x receiver transport segmentation (whole, 1 byte, cycling 1..50, 1208) x read buffer sizes (1,7,100,4096,20000 cycled) x close mode (none, Close, CloseWrite; with Close optionally a late reader and a transport that reports io.EOF together with its last bytes); oracle: writes report full length, concat(reads)=concat(writes), EOF after everything when closed, record sizes from the wire via the reference opener; non-trivial = more than one record, or segmentation != whole, or a read buffer smaller than a record")
 	sizeGen := rapid.OneOf(rapid.SampledFrom([]int{0, 1, 2, 16383, 16384, 16385, 40000, 70000}), rapid.IntRange(1, 300), rapid.IntRange(1, 20000))
 	vfRapid(t, rec, "cases", vfN(2000, 30000), func(t *rapid.T) {
 		c := c06Case{Suite: rapid.SampledFrom(vfSuites).Draw(t, "suite"), NoDynamic: rapid.Bool().Draw(t, "nodyn"), Dir: rapid.IntRange(0, 1).Draw(t, "dir"),
 			Writes: rapid.SliceOfN(sizeGen, 1, 6).Draw(t, "writes"), Seg: rapid.SampledFrom([]int{0, 0, 1, 2, 2, 3}).Draw(t, "seg"),
 			Bufs: rapid.SliceOfN(rapid.SampledFrom([]int{1, 7, 100, 4096, 20000}), 1, 3).Draw(t, "bufs"), Close: rapid.IntRange(0, 2).Draw(t, "close"),
-			Resumed: rapid.IntRange(0, 3).Draw(t, "resumed") == 0}
+			Resumed: rapid.IntRange(0, 3).Draw(t, "resumed") == 0, EOFData: rapid.IntRange(0, 2).Draw(t, "eofdata") == 0}
 		if c.Seg == 2 {
 			c.SegCycle = rapid.SliceOfN(rapid.IntRange(1, 50), 1, 5).Draw(t, "segc")
 		}
